@@ -31,7 +31,7 @@ type Profile struct {
 var baseWeights = map[string]float64{
 	"new": 8, "newwith": 4, "bnew": 4, "bbatch": 2, "bbatchq": 1, "badd": 2,
 	"rm": 6, "xchg": 10, "assign": 3, "set": 6, "get": 2, "view": 3, "alive": 2,
-	"relset": 5, "relxchg": 3, "relget": 1, "relcycle": 0.6, "layoutcross": 0.05, "recycledtarget": 0.5, "resetrel": 0.05, "manymasks": 0.01,
+	"relset": 5, "relxchg": 3, "relget": 1, "relcycle": 0.6, "layoutcross": 0.05, "wordedge": 0.03, "recycledtarget": 0.5, "resetrel": 0.05, "manymasks": 0.01,
 	"bxchg": 3, "bsetrel": 2, "brm": 1, "bbig": 0.05,
 	"qscan": 3, "qopen": 1, "creg": 1, "cunreg": 0.4, "cscan": 2,
 	"reset": 0.3, "dumpload": 0.2, "reg": 0.5, "res": 1, "listen": 0.4, "stats": 1, "locked": 0.5,
@@ -52,6 +52,7 @@ func profile(name string) Profile {
 		mul(3, "reset")
 		mul(8, "dumpload")
 		mul(10, "bbig")
+		mul(20, "wordedge")
 	case "query": // C03
 		mul(4, "qscan", "qopen")
 		mul(2, "bxchg", "bsetrel", "bbatchq")
@@ -145,8 +146,13 @@ func (g *G) emit(cmd string, args ...string) string {
 		g.out.Flush() // the OP line must be on disk before the implementation runs it
 	}
 	before := ""
+	underLock := false
 	if g.digestNext && singleEntityCmd[cmd] {
 		before = g.x.digest()
+	} else if (cmd == "LOAD" || cmd == "RESET") && g.x != nil && g.x.w != nil && g.x.w.IsLocked() {
+		// a structural call refused because the world is locked must leave everything as it was (C09)
+		before = g.x.digest() + g.x.aliveDigest()
+		underLock = true
 	}
 	g.digestNext = false
 	// cross-talk probe (C19): an operation on this world must not change another world
@@ -168,9 +174,17 @@ func (g *G) emit(cmd string, args ...string) string {
 	for _, l := range lines {
 		fmt.Fprintln(g.out, l)
 	}
-	if before != "" && before != "unavailable" && len(lines) > 0 && strings.HasSuffix(lines[0], " panic") {
-		if after := g.x.digest(); after != "unavailable" && after != before {
-			fmt.Fprintf(g.out, "CHK %d FAIL state changed by the failed call %s %s\n", g.idx, cmd, strings.Join(args, " "))
+	if before != "" && !strings.Contains(before, "unavailable") && len(lines) > 0 && strings.HasSuffix(lines[0], " panic") {
+		after := g.x.digest()
+		if underLock {
+			after += g.x.aliveDigest()
+		}
+		if !strings.Contains(after, "unavailable") && after != before {
+			if underLock {
+				fmt.Fprintf(g.out, "CHK %d FAIL state changed by the call %s %s refused on a locked world\n", g.idx, cmd, strings.Join(args, " "))
+			} else {
+				fmt.Fprintf(g.out, "CHK %d FAIL state changed by the failed call %s %s\n", g.idx, cmd, strings.Join(args, " "))
+			}
 		}
 	}
 	g.idx++
@@ -420,6 +434,20 @@ func (g *G) openQueries() []int {
 }
 
 func (g *G) register() {
+	if g.rng.Intn(10) == 0 && len(g.x.comps) > 0 {
+		// the pointer type of a type that is already registered (or of the next one, which then
+		// follows): distinct types, distinct IDs, never a relation
+		base := g.x.comps[g.rng.Intn(len(g.x.comps))].key
+		if g.rng.Intn(3) == 0 {
+			base = g.nextK
+		}
+		if base < pointerKeyBase {
+			if _, ok := g.x.keyToID[base+pointerKeyBase]; !ok {
+				g.emit("REG", strconv.Itoa(base+pointerKeyBase), "0", "1")
+				return
+			}
+		}
+	}
 	key := g.nextK
 	g.nextK++
 	ct := typeForKey(key)
@@ -791,6 +819,28 @@ func (g *G) legalOp(kind string) bool {
 			cmd = "BBATCHQ"
 		}
 		g.emit(cmd, a[0], a[1], a[2], strconv.Itoa(1+g.rng.Intn(6)), tg)
+	case "wordedge":
+		// entities created one by one until the newest ID is a multiple of 64 (the word size of the
+		// bit sets indexed by entity ID); the newest entity is then used as a relation target and removed
+		if g.x.w.Stats().Entities.Used > 200 {
+			return false
+		}
+		for i := 0; i < 140; i++ {
+			res := g.emit("NEW", "-")
+			if !strings.HasPrefix(res, "e ") {
+				return true
+			}
+			s := atoiMust(strings.Fields(res)[1][1:])
+			if id := g.x.slots[s].ID(); id%64 == 0 {
+				if rels := g.relIDs(); len(rels) > 0 && g.rng.Intn(2) == 0 {
+					rel := g.pick(rels)
+					g.emit("BNEW", strconv.Itoa(rel), "-", strconv.Itoa(rel), sl(s))
+				}
+				g.emit("RM", sl(s))
+				g.emit("STATS")
+				break
+			}
+		}
 	case "bbig":
 		// many entities at once: ids beyond the first 64-bit word of every bit set, pool growth
 		if g.x.w.Stats().Entities.Used > 150 {
@@ -1452,6 +1502,14 @@ func (g *G) loadIntoNewWorld() {
 			g.emit("LOAD", ds) // refused: not reset
 		}
 		g.emit("RESET")
+	}
+	if g.rng.Float64() < 0.3 {
+		// refused: the (empty) world is locked by an open query; nothing may change, and the load
+		// succeeds once the query is closed
+		if res := g.emit("QUERY", "A", "-"); strings.HasPrefix(res, "q ") {
+			g.emit("LOAD", ds)
+			g.emit("QCLOSE", strings.Fields(res)[1])
+		}
 	}
 	g.emit("LOAD", ds)
 	g.emit("_DUMPCMP", ds)
